@@ -350,6 +350,9 @@ type poolH struct {
 	Go   func(f func(buf *[]byte))
 	Call func(f func(buf *[]byte))
 	Stop func()
+	// GoNil hands the pool a nil task (tolerated and skipped by the pool); nil when the variant
+	// has no such call
+	GoNil func()
 }
 
 var customRecovered atomic.Int64
@@ -365,13 +368,13 @@ func makePool(c caseT) poolH {
 			}()
 			f()
 		})
-		return poolH{Go: func(f func(*[]byte)) { tp.Go(func() { f(nil) }) }, Call: func(f func(*[]byte)) { tp.Call(func() { f(nil) }) }, Stop: tp.Stop}
+		return poolH{Go: func(f func(*[]byte)) { tp.Go(func() { f(nil) }) }, Call: func(f func(*[]byte)) { tp.Call(func() { f(nil) }) }, Stop: tp.Stop, GoNil: func() { tp.Go(nil) }}
 	case "io":
 		tp := taskpool.NewIO(c.N, c.Q, c.BufSize)
 		return poolH{Go: tp.Go, Call: tp.Call, Stop: tp.Stop}
 	}
 	tp := taskpool.New(c.N, c.Q)
-	return poolH{Go: func(f func(*[]byte)) { tp.Go(func() { f(nil) }) }, Call: func(f func(*[]byte)) { tp.Call(func() { f(nil) }) }, Stop: tp.Stop}
+	return poolH{Go: func(f func(*[]byte)) { tp.Go(func() { f(nil) }) }, Call: func(f func(*[]byte)) { tp.Call(func() { f(nil) }) }, Stop: tp.Stop, GoNil: func() { tp.Go(nil) }}
 }
 
 func sigPrefix(variant string) string {
@@ -762,6 +765,11 @@ func runCapacity(r *h.Run, c caseT) {
 			for j := 0; j < per; j++ {
 				d := durFor(dm, rng)
 				id := s*per + j
+				if p.GoNil != nil && c.Index%2 == 0 && rng.Intn(6) == 0 {
+					// a nil task in the middle of the overload: skipped by the pool, and its slot
+					// bookkeeping must come out even
+					p.GoNil()
+				}
 				p.Go(func(*[]byte) {
 					atomicMax(&maxRunning, running.Add(1))
 					started.Add(1)
